@@ -17,5 +17,9 @@ CONSTANTS
   BugNoCloseWrong = FALSE
   BugAbsorb = TRUE
   BugInlineRefresh = FALSE
+  BugPrefixMatch = FALSE
+  BugAnySet = FALSE
+  MasterSet <- Own
+  SetNames <- NamesOwn
 PROPERTIES FollowsSwitch
 CHECK_DEADLOCK FALSE
